@@ -4,7 +4,14 @@
    receive and the passage of time. Executable definitions only.
 
    Time is explicit: [Tick dt] lets dt nanoseconds pass. While paused the sleep's deadline is
-   parked in the far future, so time does not count. After the wait ends -- by expiry or cut
+   parked in the far future, so time does not count. Expiry is its own event, [WFire]: the
+   `_ = &mut sleep` branch of the tokio::select! can be taken once the sleep is running and
+   nothing remains, but a request that is already queued may be taken first (select! picks among
+   the ready branches at random) -- so a Stop can still pause a sleep whose deadline has passed
+   (pause() then records `remaining = 0`, and resume() re-arms it for "now"). This is the same
+   machine as the retry-delay loop of Model/UnitTimers.v ([dstep], whose Stop / Continue arms are
+   the generated pause table): Proofs/DelayTie.v proves that the two agree on every event
+   sequence. After the wait ends -- by expiry or cut
    short by a cancellation -- run_test_instance goes on to the RetryStarted handshake of the
    next attempt either way (Model/Backoff.v, [accept]); when the wait was cut short the run is
    being cancelled and the dispatcher refuses that handshake. *)
@@ -13,6 +20,7 @@ Open Scope N_scope.
 
 Inductive wevent :=
 | Tick (dt : N)
+| WFire            (* the sleep branch of the select! is taken (only possible when due) *)
 | WStop            (* RunUnitRequest::Signal(SignalRequest::Stop) *)
 | WContinue        (* RunUnitRequest::Signal(SignalRequest::Continue) *)
 | WShutdown        (* RunUnitRequest::Signal(SignalRequest::Shutdown(_)) *)
@@ -30,8 +38,8 @@ Definition wstep (s : wstate) (e : wevent) : wstate :=
   match s with
   | Waiting rem paused =>
       match e with
-      | Tick dt => if paused then s
-                   else if rem <=? dt then Done Expired else Waiting (rem - dt) false
+      | Tick dt => if paused then s else Waiting (rem - dt) false   (* truncated: stays at 0 *)
+      | WFire => if negb paused && (rem =? 0) then Done Expired else s
       | WStop => if paused then WPanicked else Waiting rem true
       | WContinue => Waiting rem false          (* resume only if paused; no-op otherwise *)
       | WShutdown | WOtherCancel => Done CutShort
@@ -52,6 +60,15 @@ Fixpoint active_time (paused : bool) (evs : list wevent) : N :=
   | WStop :: rest => active_time true rest
   | WContinue :: rest => active_time false rest
   | _ :: rest => active_time paused rest
+  end.
+
+(* whether the history ends stopped *)
+Fixpoint paused_after (paused : bool) (evs : list wevent) : bool :=
+  match evs with
+  | [] => paused
+  | WStop :: rest => paused_after true rest
+  | WContinue :: rest => paused_after false rest
+  | _ :: rest => paused_after paused rest
   end.
 
 Definition is_cancel (e : wevent) : bool :=
